@@ -85,7 +85,17 @@ def sig_with_meta(rng):
     a = AppSignature(app_id='vapp', upgrade_method=rng.choice([UpgradeMethod.EVOLUTIONS, UpgradeMethod.MIGRATIONS]))
     if a.upgrade_method == UpgradeMethod.MIGRATIONS:
         a.applied_migrations = ['0001_initial', '0002_more']
-    a.add_model_sig(ModelSignature.from_model(m))
+    msig = ModelSignature.from_model(m)
+    if rng.random() < 0.5:
+        # attribute values as mutations leave them in a signature (ChangeField(max_length=None), db_column=''
+        # and so on): explicitly stored values that equal the default, are None, or are falsy
+        for _ in range(rng.randint(1, 3)):
+            fsig = msig.get_field_sig(rng.choice(['a', 'b']))
+            attr = rng.choice(['max_length', 'db_column', 'db_index', 'unique', 'null'])
+            fsig.field_attrs[attr] = rng.choice({'max_length': [None, 0, 7], 'db_column': [None, '', 'col_x']}
+                                                .get(attr, [None, False, True]))
+        kind += '+explicit_attrs'
+    a.add_model_sig(msig)
     p.add_app_sig(a)
     return p, kind
 
@@ -178,13 +188,16 @@ def run(ctx):
         ver = Version(signature=sig)
         ver.save()
         loaded = Version.objects.get(pk=ver.pk).signature
-        text1 = json.dumps(sig.serialize())
-        text2 = json.dumps(loaded.serialize())
+        # attribute order inside a field is not content: compare canonical text
+        text1 = json.dumps(sig.serialize(), sort_keys=True)
+        text2 = json.dumps(loaded.serialize(), sort_keys=True)
         eq = (loaded == sig)
         d1 = Diff(sig, loaded).is_empty(ignore_apps=False)
         d2 = Diff(loaded, sig).is_empty(ignore_apps=False)
         ctx.case({'signature_kind': kind, 'eq': eq, 'diff_empty': [d1, d2], 'same_text': text1 == text2},
                  nontrivial=kind != 'none', sample_cap=8)
+        explicit = kind.endswith('+explicit_attrs')
+        kind = kind.split('+')[0]
         rep = {'kind': 'signature', 'meta': kind, 'serialized': json.loads(text1), 'eq': eq,
                'diff_empty': [d1, d2], 'same_text': text1 == text2}
         if text1 != text2:
@@ -205,7 +218,8 @@ def run(ctx):
             back = ProjectSignature.deserialize(json.loads(json.dumps(v1.serialize(sig_version=2)),
                                                            object_pairs_hook=OrderedDict))
             ma, mb = sig.get_app_sig('vapp').get_model_sig('Alpha'), back.get_app_sig('vapp').get_model_sig('Alpha')
-            same = ([sigs.abs_field(f) for f in ma.field_sigs] == [sigs.abs_field(f) for f in mb.field_sigs] and
+            canon = lambda f: dict(sigs.abs_field(f), attrs=sorted(sigs.abs_field(f)['attrs']))
+            same = ([canon(f) for f in ma.field_sigs] == [canon(f) for f in mb.field_sigs] and
                     ma.unique_together == mb.unique_together and ma.table_name == mb.table_name)
             ctx.count('v1_roundtrip')
             if not same:
